@@ -12,7 +12,7 @@ from .. import observe, spec as specmod
 from ..kernel import call, exc_site
 from .pool import PoolScenario
 
-QKINDS = [("lambda", 4), ("named", 2), ("def", 2), ("str", 3), ("cached", 2), ("cached_named", 1), ("selfc", 3), ("selfg", 2), ("selfk", 7)]
+QKINDS = [("lambda", 4), ("named", 2), ("def", 2), ("str", 3), ("cached", 2), ("cached_named", 1), ("selfc", 3), ("selfg", 2), ("selfk", 7), ("selfkw", 2), ("selfnest", 2), ("selfattr", 2)]
 
 
 class C11(PoolScenario):
